@@ -11,6 +11,7 @@ Require Import SDS.Model.Mach SDS.Model.Bits SDS.Model.Raw SDS.Model.IntVec SDS.
 Require Import SDS.Model.Sparse SDS.Model.SerComposite SDS.Model.SerSparse.
 Require Import SDS.gen.Consts SDS.gen.Layout SDS.Spec.Stream SDS.Spec.BitSeq SDS.Spec.ValSeq.
 Require Import SDS.Proofs.BitsProof SDS.Proofs.BVCommon SDS.Proofs.RankProof SDS.Proofs.SelectProof SDS.Proofs.BVFull.
+Require SDS.Proofs.RawProof SDS.Proofs.IntVecProof.
 Require Import SDS.Proofs.SerProof SDS.Proofs.SerTypes SDS.Proofs.SerSupports SDS.Proofs.SerMain SDS.Proofs.SerComposite.
 Require Import SDS.Proofs.SparseSeq SDS.Proofs.SparseProof SDS.Proofs.SparseBuild SDS.Proofs.SparseLow SDS.Proofs.SparseHigh.
 Import ListNotations.
@@ -65,9 +66,10 @@ Proof. cbn [sparse_codec conv_codec seq_codec c_size usize_codec u64_codec fst s
 
 (* ================================================================ 2. the low part with the facts serialization needs *)
 
-(* iv_seq (Proofs/SparseLow.v) + the exact bit and word counts of the underlying RawVector *)
+(* iv_seq (Proofs/SparseLow.v) + the exact bit and word counts of the underlying RawVector + its unused bits are 0 *)
 Definition ivS (v : intvec) (w : N) (L : list N) : Prop :=
-  iv_seq v w L /\ rlen (idata v) = lenN L * w /\ lenN (rdata (idata v)) = (rlen (idata v) + 63) / 64.
+  iv_seq v w L /\ rlen (idata v) = lenN L * w /\ lenN (rdata (idata v)) = (rlen (idata v) + 63) / 64 /\
+  forall p, rlen (idata v) <= p -> bit (rdata (idata v)) p = false.
 
 Lemma ivS_with_len len w : 1 <= w <= 64 ->
   exists v, iv_with_len len w 0 = Some (Ok v) /\ ivS v w (repeatN 0 (N.to_nat len)).
@@ -78,22 +80,23 @@ Proof.
   assert (Hz0 : zraw raw_new).
   { unfold zraw, raw_new. cbn [rdata rlen]. split; [constructor|]. split; [|reflexivity].
     intros p. unfold bit, getw. cbn [nthN]. apply N.bits_0. }
-  destruct (zraw_push_n (N.to_nat len) raw_new w Hz0 Hw) as [r [Hp [[_ [_ Hl]] Hrl]]].
+  destruct (zraw_push_n (N.to_nat len) raw_new w Hz0 Hw) as [r [Hp [[_ [Hzb Hl]] Hrl]]].
   rewrite Hp in E. cbn [bind] in E. injection E as <-. cbn [idata ilen]. cbn [rlen raw_new] in Hrl.
-  rewrite lenN_repeatN, N2Nat.id. split; [rewrite Hrl; lia|exact Hl].
+  rewrite lenN_repeatN, N2Nat.id. split; [rewrite Hrl; lia|]. split; [exact Hl|]. intros p _. apply Hzb.
 Qed.
 
 Lemma ivS_set v w L i x : ivS v w L -> i < lenN L -> x < 2 ^ w ->
   exists v', iv_set v i x = Ok v' /\ ivS v' w (setN L i x).
 Proof.
-  intros (Hs & Hb & Hwd) Hi Hx. destruct (iv_seq_set v w L i x Hs Hi Hx) as (v' & E & Hs'). exists v'. split; [exact E|].
+  intros (Hs & Hb & Hwd & Hun) Hi Hx. destruct (iv_seq_set v w L i x Hs Hi Hx) as (v' & E & Hs'). exists v'. split; [exact E|].
   split; [exact Hs'|]. destruct Hs as [Hl [Hw [Hwr [Hwf [Hroom _]]]]].
   unfold iv_set in E. rewrite Hl in E. replace (i <? lenN L) with true in E by lia.
   unfold raw_set_int in E. rewrite Hw in E. replace (w =? 0) with false in E by lia.
   pose proof (field_in_range i (lenN L) w _ ltac:(lia) Hi Hroom) as Hr.
-  destruct (write_read (rdata (idata v)) (i * w) x w Hwf Hwr Hr) as [a' [Hwi [_ [Hlen' _]]]].
+  destruct (write_read (rdata (idata v)) (i * w) x w Hwf Hwr Hr) as [a' [Hwi [_ [Hlen' [_ Hout]]]]].
   rewrite Hwi in E. cbn [bind] in E. injection E as <-. cbn [idata rlen rdata]. rewrite lenN_setN.
-  split; [exact Hb|]. unfold lenN in *. rewrite Hlen'. exact Hwd.
+  split; [exact Hb|]. split; [unfold lenN in *; rewrite Hlen'; exact Hwd|].
+  intros p Hp. rewrite Hout by nia. apply Hun. exact Hp.
 Qed.
 
 Lemma ivS_low_ok v w L : ivS v w L -> low_ok v w L.
@@ -101,9 +104,15 @@ Proof. intros (Hs & _). exact (iv_seq_low_ok v w L Hs). Qed.
 
 Lemma ivS_iv_ok v w L : ivS v w L -> lenN L < 2 ^ 64 -> lenN L * w + 63 < 2 ^ 64 -> iv_ok v.
 Proof.
-  intros ([Hl [Hw [Hwr [Hwf _]]]] & Hb & Hwd) HL Hbits. unfold iv_ok, raw_ok. rewrite Hl, Hw, Hb.
+  intros ([Hl [Hw [Hwr [Hwf _]]]] & Hb & Hwd & _) HL Hbits. unfold iv_ok, raw_ok. rewrite Hl, Hw, Hb.
   split; [exact HL|]. split; [lia|]. split; [reflexivity|]. split; [exact Hbits|].
   split; [rewrite Hwd, Hb; reflexivity|]. exact Hwf.
+Qed.
+
+Lemma ivS_iv_inv v w L : ivS v w L -> IntVecProof.iv_inv v.
+Proof.
+  intros ([Hl [Hw [Hwr [Hwf _]]]] & Hb & Hwd & Hun). unfold IntVecProof.iv_inv, RawProof.raw_inv. rewrite Hl, Hw.
+  split; [exact Hwr|]. split; [exact Hb|]. split; [rewrite Hwd; reflexivity|]. split; [exact Hwf|exact Hun].
 Qed.
 
 (* ================================================================ 3. the builder's last state *)
@@ -166,14 +175,15 @@ Lemma finish_wf n w inc Vs b' : n < 2 ^ 64 -> 1 <= w <= 63 -> inc <= 1 -> bounde
   exists sv H, sv_try_from sp md b' = Ok (inl sv) /\ sv_ok sp md sv n w Vs H /\
     (forall sp' m', c_wf (sparse_codec sp' m') sv) /\
     (forall wh, sub_of wh (sv_high sv) -> forall sp' m' rest,
-       sparse_dec sp' m' (sparse_enc m' (mksv (sv_len sv) wh (sv_low sv)) ++ rest) = IoOk (sv, rest)).
+       sparse_dec sp' m' (sparse_enc m' (mksv (sv_len sv) wh (sv_low sv)) ++ rest) = IoOk (sv, rest)) /\
+    (exists L, ivS (sv_low sv) w L /\ lenN L = lenN Vs /\ forall i, i < lenN Vs -> nthd L i = nthd Vs i mod 2 ^ w).
 Proof.
   change select_SUPERBLOCK_SIZE with 4096. intros Hn Hw Hinc Hb Hord Hfit Hbits Hinv.
   assert (Hfit' : lenN Vs + buckets_of n w < 2 ^ 64) by lia.
   destruct (b_finish sp md n w inc Vs ivS ivS_set ivS_low_ok Hn Hw (lenN Vs) ltac:(lia) Hb Hinc Hord Hfit' b'
               (high_contract_holds sp md) eq_refl Hinv) as (sv & H & E & Hok).
   exists sv, H. split; [exact E|]. split; [exact Hok|].
-  destruct Hinv as [Hu [Hl [_ [_ [[L [HR [HLm _]]] [Hwf [Hrl _]]]]]]].
+  destruct Hinv as [Hu [Hl [_ [_ [[L [HR [HLm HLv]]] [Hwf [Hrl _]]]]]]].
   pose proof (ivS_low_ok _ _ _ HR) as [Hilen [Hiw _]].
   (* what try_from computed *)
   unfold sv_try_from in E. rewrite Hl, Hilen, HLm, N.eqb_refl in E. cbn [negb] in E.
@@ -208,7 +218,7 @@ Proof.
   assert (Dec : forall wh, sub_of wh h2 -> forall sp' m' rest,
             sparse_dec sp' m' (sparse_enc m' (mksv n wh (b_low b')) ++ rest) = IoOk (mksv n h2 (b_low b'), rest)).
   { intros wh Hwh sp' m' rest. destruct (Hall wh Hwh) as [_ D]. exact (D sp' m' n (b_low b') _ rest Hn Hivok Hcnt Hbk Htot). }
-  split; [|exact Dec].
+  split; [|split; [exact Dec|exists L; auto]].
   intros sp' m'. cbn [sparse_codec conv_codec seq_codec c_wf usize_codec u64_codec bv_codec iv_codec with_wf fst snd sv_len sv_high sv_low].
   split; [split; [exact Hn|split; [exact Hbvok|exact Hivok]]|].
   (* the loader maps the fields to the record: read it off the round trip *)
@@ -226,6 +236,48 @@ End Final.
 
 (* ================================================================ 4. assembled over the builders *)
 
+(* everything the serialization theorems need about a built vector *)
+Definition built_facts (sp : selpath) (md : mode) (n w : N) (Vs : list N) (sv : sparse) : Prop :=
+  (exists H, sv_ok sp md sv n w Vs H) /\
+  (forall sp' m', c_wf (sparse_codec sp' m') sv) /\
+  (forall wh, sub_of wh (sv_high sv) -> forall sp' m' rest,
+     sparse_dec sp' m' (sparse_enc m' (mksv (sv_len sv) wh (sv_low sv)) ++ rest) = IoOk (sv, rest)) /\
+  (exists L, ivS (sv_low sv) w L /\ lenN L = lenN Vs /\ forall i, i < lenN Vs -> nthd L i = nthd Vs i mod 2 ^ w).
+
+Theorem sparse_set_facts sp md w' n Vs :
+  n < 2 ^ 64 -> 1 <= w' <= 63 -> increasing Vs = true -> all_below n Vs = true ->
+  let w := eff_width w' n (lenN Vs) in
+  lenN Vs + buckets_of n w + select_SUPERBLOCK_SIZE < 2 ^ 64 -> lenN Vs * w + 63 < 2 ^ 64 ->
+  exists sv, sv_build_set sp md w' n Vs = Ok (inl sv) /\ built_facts sp md n w Vs sv.
+Proof.
+  change select_SUPERBLOCK_SIZE with 4096. intros Hn Hw' Hinc Hbel w Hfit Hbits. subst w.
+  pose proof (increasing_sorted _ Hinc) as Hs. pose proof (all_below_bounded _ _ Hbel) as Hb.
+  pose proof (eff_width_range w' n (lenN Vs) Hw') as Hw.
+  destruct (set_state md w' n Vs Hn Hw' Hinc Hbel ltac:(lia)) as (b' & Est & Hinv).
+  destruct (finish_wf sp md n _ 1 Vs b' Hn Hw ltac:(lia) Hb (ord_of_sorted_lt ivS ivS_with_len ivS_set ivS_low_ok Vs Hs)
+              ltac:(change select_SUPERBLOCK_SIZE with 4096; lia) Hbits Hinv) as (sv & H & E & Hok & Wf & D & HL).
+  exists sv. split; [|split; [exists H; exact Hok|split; [exact Wf|split; [exact D|exact HL]]]].
+  unfold sv_build_set. destruct (sb_new md w' n (lenN Vs)) as [[b0|e]| |]; cbn [bind] in Est |- *; try discriminate.
+  rewrite Est. cbn [bind]. exact E.
+Qed.
+
+Theorem sparse_multiset_facts sp md w' n Vs :
+  n < 2 ^ 64 -> 1 <= w' <= 63 -> nondecreasing Vs = true -> all_below n Vs = true ->
+  let w := eff_width w' n (lenN Vs) in
+  lenN Vs + buckets_of n w + select_SUPERBLOCK_SIZE < 2 ^ 64 -> lenN Vs * w + 63 < 2 ^ 64 ->
+  exists sv, sv_build_multiset sp md w' n Vs = Ok (inl sv) /\ built_facts sp md n w Vs sv.
+Proof.
+  change select_SUPERBLOCK_SIZE with 4096. intros Hn Hw' Hnd Hbel w Hfit Hbits. subst w.
+  pose proof (nondecreasing_sorted _ Hnd) as Hs. pose proof (all_below_bounded _ _ Hbel) as Hb.
+  pose proof (eff_width_range w' n (lenN Vs) Hw') as Hw.
+  destruct (multiset_state md w' n Vs Hn Hw' Hnd Hbel ltac:(lia)) as (b' & Est & Hinv).
+  destruct (finish_wf sp md n _ 0 Vs b' Hn Hw ltac:(lia) Hb (ord_of_sorted_le ivS ivS_with_len ivS_set ivS_low_ok Vs Hs)
+              ltac:(change select_SUPERBLOCK_SIZE with 4096; lia) Hbits Hinv) as (sv & H & E & Hok & Wf & D & HL).
+  exists sv. split; [|split; [exists H; exact Hok|split; [exact Wf|split; [exact D|exact HL]]]].
+  unfold sv_build_multiset. destruct (sb_multiset md w' n (lenN Vs)) as [b0| |]; cbn [bind] in Est |- *; try discriminate.
+  rewrite Est. cbn [bind]. exact E.
+Qed.
+
 Theorem sparse_set_wf sp md w' n Vs :
   n < 2 ^ 64 -> 1 <= w' <= 63 -> increasing Vs = true -> all_below n Vs = true ->
   let w := eff_width w' n (lenN Vs) in
@@ -235,15 +287,9 @@ Theorem sparse_set_wf sp md w' n Vs :
     (forall wh, sub_of wh (sv_high sv) -> forall sp' m' rest,
        sparse_dec sp' m' (sparse_enc m' (mksv (sv_len sv) wh (sv_low sv)) ++ rest) = IoOk (sv, rest)).
 Proof.
-  change select_SUPERBLOCK_SIZE with 4096. intros Hn Hw' Hinc Hbel w Hfit Hbits. subst w.
-  pose proof (increasing_sorted _ Hinc) as Hs. pose proof (all_below_bounded _ _ Hbel) as Hb.
-  pose proof (eff_width_range w' n (lenN Vs) Hw') as Hw.
-  destruct (set_state md w' n Vs Hn Hw' Hinc Hbel ltac:(lia)) as (b' & Est & Hinv).
-  destruct (finish_wf sp md n _ 1 Vs b' Hn Hw ltac:(lia) Hb (ord_of_sorted_lt ivS ivS_with_len ivS_set ivS_low_ok Vs Hs)
-              ltac:(change select_SUPERBLOCK_SIZE with 4096; lia) Hbits Hinv) as (sv & H & E & _ & Wf & D).
-  exists sv. split; [|split; [exact Wf|exact D]].
-  unfold sv_build_set. destruct (sb_new md w' n (lenN Vs)) as [[b0|e]| |]; cbn [bind] in Est |- *; try discriminate.
-  rewrite Est. cbn [bind]. exact E.
+  intros Hn Hw' Hinc Hbel w Hfit Hbits.
+  destruct (sparse_set_facts sp md w' n Vs Hn Hw' Hinc Hbel Hfit Hbits) as (sv & E & _ & Wf & D & _).
+  exists sv. auto.
 Qed.
 
 Theorem sparse_multiset_wf sp md w' n Vs :
@@ -255,15 +301,9 @@ Theorem sparse_multiset_wf sp md w' n Vs :
     (forall wh, sub_of wh (sv_high sv) -> forall sp' m' rest,
        sparse_dec sp' m' (sparse_enc m' (mksv (sv_len sv) wh (sv_low sv)) ++ rest) = IoOk (sv, rest)).
 Proof.
-  change select_SUPERBLOCK_SIZE with 4096. intros Hn Hw' Hnd Hbel w Hfit Hbits. subst w.
-  pose proof (nondecreasing_sorted _ Hnd) as Hs. pose proof (all_below_bounded _ _ Hbel) as Hb.
-  pose proof (eff_width_range w' n (lenN Vs) Hw') as Hw.
-  destruct (multiset_state md w' n Vs Hn Hw' Hnd Hbel ltac:(lia)) as (b' & Est & Hinv).
-  destruct (finish_wf sp md n _ 0 Vs b' Hn Hw ltac:(lia) Hb (ord_of_sorted_le ivS ivS_with_len ivS_set ivS_low_ok Vs Hs)
-              ltac:(change select_SUPERBLOCK_SIZE with 4096; lia) Hbits Hinv) as (sv & H & E & _ & Wf & D).
-  exists sv. split; [|split; [exact Wf|exact D]].
-  unfold sv_build_multiset. destruct (sb_multiset md w' n (lenN Vs)) as [b0| |]; cbn [bind] in Est |- *; try discriminate.
-  rewrite Est. cbn [bind]. exact E.
+  intros Hn Hw' Hnd Hbel w Hfit Hbits.
+  destruct (sparse_multiset_facts sp md w' n Vs Hn Hw' Hnd Hbel Hfit Hbits) as (sv & E & _ & Wf & D & _).
+  exists sv. auto.
 Qed.
 
 (* the bytes written are the little-endian image of the element list [sv_serialize] of Model/Sparse.v (what the
